@@ -267,3 +267,29 @@ Theorem C01_comments_noskipws_refuted :
   spec_run SpecCmt.g_cmt SpecCmt.c_noskip (orc_of SpecCmt.t_cmt2) (40 + (8 + 2)) SpecCmt.in_cmt2 = SFail.
 Proof. exact SpecCmt.refuted_cmt_noskipws. Qed.
 Print Assumptions C01_comments_noskipws_refuted.
+
+From TxV Require Proofs.SpecCmtTotal.
+
+(* ... and unconditionally: tables of the Comment class that pass the termination analysis return a verdict at
+   every fuel from the computable bound on (they neither run out of fuel nor crash), and it is the verdict
+   of the documented semantics *)
+Theorem C01_refinement_comments_total :
+  forall g pf c orc input f,
+    SpecCmt.wfgc g pf = true -> c_skipws c = true -> PegTerm.terminating PegTerm.none_nullable g = true ->
+    PegTerm.orc_sane g input orc -> orc_pos orc -> PegTerm.fuel_bound PegTerm.none_nullable g input <= f ->
+    let fs := f + (length input + 2) in
+    (exists r ts p, run g c orc false f input = Parsed r /\ spec_run g c orc fs input = SOk ts p /\
+                    (nosep g = true -> erase_all ts = flatten r) /\
+                    exists tsq, spec_run_q g c orc fs input = SOk tsq p /\ erase_all tsq = flatten r) \/
+    (exists e, run g c orc false f input = SyntaxErr e /\ spec_run g c orc fs input = SFail).
+Proof. exact SpecCmtTotal.refinement_cmt_total. Qed.
+Print Assumptions C01_refinement_comments_total.
+
+Example C01_refinement_comments_total_nonvacuous :
+  SpecCmt.wfgc SpecCmt.g_cmt 24 = true /\ c_skipws SpecCmt.c_skip = true /\
+  PegTerm.terminating PegTerm.none_nullable SpecCmt.g_cmt = true /\
+  PegTerm.orc_sane SpecCmt.g_cmt SpecCmt.in_cmt1 (orc_of SpecCmt.t_cmt1) /\ orc_pos (orc_of SpecCmt.t_cmt1) /\
+  PegTerm.fuel_bound PegTerm.none_nullable SpecCmt.g_cmt SpecCmt.in_cmt1 = 194 /\
+  accepts (run SpecCmt.g_cmt SpecCmt.c_skip (orc_of SpecCmt.t_cmt1) false 194 SpecCmt.in_cmt1) = true.
+Proof. exact SpecCmtTotal.cmt_total_nonvacuous. Qed.
+Print Assumptions C01_refinement_comments_total_nonvacuous.
